@@ -461,7 +461,13 @@ def shape_polylines(tag, at):
     if tag == 'line':
         return [[complex(g('x1'), g('y1')), complex(g('x2'), g('y2'))]]
     if tag in ('polyline', 'polygon'):
-        nums = [float(x) for x in at.get('points', '').replace(',', ' ').split()]
+        # the number grammar of SVG 1.1 4.2 / 9.7.1: sign? (digits [. digits?] | . digits) exponent?
+        import re as _re
+        txt = at.get('points', '')
+        toks = _re.findall(r'[+-]?(?:\d+\.?\d*|\.\d+)(?:[eE][+-]?\d+)?', txt)
+        if _re.sub(r'[\s,]+', '', _re.sub(r'[+-]?(?:\d+\.?\d*|\.\d+)(?:[eE][+-]?\d+)?', ' ', txt)) != '':
+            raise ValueError('points list not in the number grammar: %r' % txt)
+        nums = [float(x) for x in toks]
         pts = [complex(nums[i], nums[i + 1]) for i in range(0, len(nums) - 1, 2)]
         if tag == 'polygon' and pts:
             pts = pts + [pts[0]]
